@@ -234,6 +234,25 @@ pub fn run(run: &Run) {
             Ok(())
         },
     );
+    // dictionary entries that occur more than once (the data corner of the "none repeats" clause) are always typed
+    let mut seen = std::collections::HashSet::new();
+    let dups: Vec<usize> = all.iter().enumerate().filter(|(_, w)| !seen.insert(w.as_str())).map(|(i, _)| i).collect();
+    run.exhaustive(
+        "dictionary-words-listed-twice",
+        &dups,
+        |_| mk_local(),
+        |&wi, st, lo| {
+            for optidx in 0..N_OPT {
+                st.evals(1);
+                let c = Case { optidx, lead: String::new(), word: all[wi].clone(), trail: String::new(), retype: vec![] };
+                checked(&c, lo, st)?;
+                let c = Case { optidx, lead: "\"".to_string(), word: all[wi].clone(), trail: "\"".to_string(), retype: vec![] };
+                checked(&c, lo, st)?;
+            }
+            st.label("duplicated-dictionary-entries-typed");
+            Ok(())
+        },
+    );
     run.require_label("word-needs-a-number-pad-key", 1);
     run.require_label("emoji-source-present", 10);
     run.require_label("with-backspace", 20);
